@@ -3,26 +3,33 @@
 package main
 
 import (
+	"crypto/ecdsa"
 	"crypto/ed25519"
+	"crypto/elliptic"
 	"encoding/json"
 	"flag"
 	"fmt"
+	"math/big"
 	"math/rand"
 	"os"
 	"runtime"
 	"sync"
 	"sync/atomic"
 
+	"github.com/btcsuite/btcd/btcec/v2"
 	"github.com/trustbloc/sidetree-go/pkg/api/operation"
 	"github.com/trustbloc/sidetree-go/pkg/api/protocol"
 	"github.com/trustbloc/sidetree-go/pkg/canonicalizer"
 	"github.com/trustbloc/sidetree-go/pkg/commitment"
 	"github.com/trustbloc/sidetree-go/pkg/document"
 	"github.com/trustbloc/sidetree-go/pkg/encoder"
+	"github.com/trustbloc/sidetree-go/pkg/hashing"
 	"github.com/trustbloc/sidetree-go/pkg/patch"
+	"github.com/trustbloc/sidetree-go/pkg/util/ecsigner"
 	"github.com/trustbloc/sidetree-go/pkg/util/pubkey"
 	"github.com/trustbloc/sidetree-go/pkg/vdr/sidetreelongform/dochandler"
 	"github.com/trustbloc/sidetree-go/pkg/vdr/sidetreelongform/dochandler/protocol/nsprovider"
+	"github.com/trustbloc/sidetree-go/pkg/vdr/sidetreelongform/dochandler/protocol/verprovider"
 	"github.com/trustbloc/sidetree-go/pkg/vdr/sidetreelongform/dochandler/protocolversion/clientregistry"
 	vcommon "github.com/trustbloc/sidetree-go/pkg/vdr/sidetreelongform/dochandler/protocolversion/versions/common"
 	pcfg "github.com/trustbloc/sidetree-go/pkg/vdr/sidetreelongform/dochandler/protocolversion/versions/v1_0/config"
@@ -77,6 +84,60 @@ func mkCreate(i int) []byte {
 	return b
 }
 
+// mkSignedUpdate: a DID created with P-256 / secp256k1 / P-384 operation keys and an update of it
+// signed with the library's EC signer; returns the state after create and the update request
+func mkSignedUpdate(applier *operationapplier.Applier, i int) (*protocol.ResolutionModel, []byte) {
+	curve := []elliptic.Curve{elliptic.P256(), btcec.S256(), elliptic.P384()}[i%3]
+	alg := []string{"ES256", "ES256K", "ES384"}[i%3]
+	mk := func(salt int) *ecdsa.PrivateKey {
+		d := big.NewInt(int64(1000003*(i+1) + 7919*salt + 11))
+		x, y := curve.ScalarBaseMult(d.Bytes())
+		return &ecdsa.PrivateKey{PublicKey: ecdsa.PublicKey{Curve: curve, X: x, Y: y}, D: d}
+	}
+	upd, rec, next := mk(1), mk(2), mk(3)
+	ju, _ := pubkey.GetPublicKeyJWK(&upd.PublicKey)
+	jr, _ := pubkey.GetPublicKeyJWK(&rec.PublicKey)
+	jn, _ := pubkey.GetPublicKeyJWK(&next.PublicKey)
+	cu, _ := commitment.GetCommitment(ju, 18)
+	cr, _ := commitment.GetCommitment(jr, 18)
+	cn, _ := commitment.GetCommitment(jn, 18)
+	doc := fmt.Sprintf(`{"service":[{"id":"svc%d","type":"T","serviceEndpoint":"https://example.com/%d"}]}`, i, i)
+	cb, err := client.NewCreateRequest(&client.CreateRequestInfo{OpaqueDocument: doc, RecoveryCommitment: cr, UpdateCommitment: cu, MultihashCode: 18})
+	if err != nil {
+		panic(err)
+	}
+	rm, err := applier.Apply(&operation.AnchoredOperation{Type: "create", OperationRequest: cb, TransactionTime: 0}, &protocol.ResolutionModel{})
+	if err != nil {
+		panic(err)
+	}
+	var req struct {
+		SuffixData json.RawMessage `json:"suffixData"`
+	}
+	json.Unmarshal(cb, &req)
+	suffix, _ := hashing.CalculateModelMultihash(req.SuffixData, 18)
+	p, _ := patch.NewAddAlsoKnownAs(fmt.Sprintf(`["https://aka.example/%d"]`, i))
+	rv, _ := commitment.GetRevealValue(ju, 18)
+	ub, err := client.NewUpdateRequest(&client.UpdateRequestInfo{DidSuffix: suffix, Patches: []patch.Patch{p}, UpdateCommitment: cn, UpdateKey: ju,
+		MultihashCode: 18, Signer: ecsigner.New(upd, alg, ""), RevealValue: rv})
+	if err != nil {
+		panic(err)
+	}
+	return rm, ub
+}
+
+// two protocol versions, the configured current one not being the latest
+type versionStub struct {
+	v string
+	g uint64
+}
+
+func (s *versionStub) Version() string                                   { return s.v }
+func (s *versionStub) Protocol() protocol.Protocol                       { return protocol.Protocol{GenesisTime: s.g} }
+func (s *versionStub) OperationParser() protocol.OperationParser         { return nil }
+func (s *versionStub) OperationApplier() protocol.OperationApplier       { return nil }
+func (s *versionStub) DocumentValidator() protocol.DocumentValidator     { return nil }
+func (s *versionStub) DocumentTransformer() protocol.DocumentTransformer { return nil }
+
 type factoryStub struct{ id int }
 
 func (f *factoryStub) Create(version string, _ *vcommon.ProtocolConfig) (protocol.Version, error) {
@@ -106,6 +167,13 @@ func main() {
 	for i := range reqs {
 		reqs[i] = mkCreate(i)
 	}
+	// EC-signed updates on distinct DIDs (the applier verifies the signature: hashing and curve
+	// arithmetic on the verification path are shared code)
+	states := make([]*protocol.ResolutionModel, n)
+	updates := make([][]byte, n)
+	for i := range updates {
+		states[i], updates[i] = mkSignedUpdate(applier, i)
+	}
 	type call func(i int) string
 	scenarios := []struct {
 		name string
@@ -114,6 +182,10 @@ func main() {
 		{"parse", func(i int) string { return snap(parser.Parse("did:ion", reqs[i])) }},
 		{"apply", func(i int) string {
 			rm, e := applier.Apply(&operation.AnchoredOperation{Type: "create", OperationRequest: reqs[i], TransactionTime: uint64(i)}, &protocol.ResolutionModel{})
+			return snap(rm, e)
+		}},
+		{"apply-signed-update", func(i int) string {
+			rm, e := applier.Apply(&operation.AnchoredOperation{Type: "update", OperationRequest: updates[i], TransactionTime: uint64(i + 1)}, states[i])
 			return snap(rm, e)
 		}},
 		{"compose", func(i int) string {
@@ -180,6 +252,44 @@ func main() {
 			}
 		}
 		emit(result{Scenario: sc.name, Calls: n, Mismatches: mism, Detail: detail})
+	}
+	// version provider: the very first lookups of the current version, made concurrently
+	{
+		var mism64 int64
+		for t := 0; t < *trials*10; t++ {
+			vp, err := verprovider.New([]protocol.Version{&versionStub{"0.5", 5}, &versionStub{"0.6", 9}}, verprovider.WithCurrentProtocolVersion("0.5"))
+			if err != nil {
+				panic(err)
+			}
+			var wg sync.WaitGroup
+			start := make(chan struct{})
+			for w := 0; w < 4; w++ {
+				wg.Add(1)
+				go func() {
+					defer wg.Done()
+					defer func() {
+						if recover() != nil {
+							atomic.AddInt64(&mism64, 1)
+						}
+					}()
+					<-start
+					cur, e := vp.Current()
+					if e != nil || cur == nil || cur.Version() != "0.5" {
+						atomic.AddInt64(&mism64, 1)
+					}
+					if g, e := vp.Get(9); e != nil || g.Version() != "0.6" {
+						atomic.AddInt64(&mism64, 1)
+					}
+				}()
+			}
+			close(start)
+			wg.Wait()
+		}
+		d := ""
+		if mism64 > 0 {
+			d = "a concurrent first lookup did not return the configured current version"
+		}
+		emit(result{Scenario: "verprovider", Calls: *trials * 10 * 8, Mismatches: int(mism64), Detail: d})
 	}
 	// registries: concurrent registration and lookup behave as if performed one at a time
 	{
